@@ -197,7 +197,18 @@ PROPS["C20"] = {
     "assumptions": ["free TCP ports can be found; privileged default ports may or may not be bindable (both handled)"],
 }
 
+PROPS["C18"] = {
+    "test": "TestC18", "level": "exploration", "registered": True, "engine": "live", "race": True, "race_is_violation": True,
+    "shards_quick": 8, "shards_thorough": 16, "timeout": 1500, "min_classes": 10,
+    "technique": "Go race detector over a repeated real-concurrency stress (real sockets, 16 cores, hook jitter), crash attribution by journal, bounded-progress epilogue with goroutine-dump classifier",
+    "level_text": "Per run a real Server on loopback with 6-12 real HTTP targets (flapping health endpoints, upgrade echo, slow paths), 16-55 clients (plain, cookie-bearing, POST, slow, upgraded) and 3-6 operators issuing every command (deploy with changing hosts/options/TLS, sub-path deploys that inherit TLS, rollout deploy/set/stop, pause, stop, resume, remove, list) on three service names, probe interval 5-20ms, random jitter at the hook points; 16 runs of 2.5s in quick, 200 in thorough, built with -race. A race report whose two stacks both contain repository frames is a violation (deduplicated by the innermost repository frame pair); a panic kills the child and is attributed by the journal; after each stress a fixed epilogue (list, resume, deploy, request, remove) must complete within a 60s watchdog, otherwise the goroutine dump decides between deadlock (violation) and inconclusive.",
+    "level_note": "Trusted: the Go race detector (reports only races that occur in the executions produced); dump classifier. 'Never deadlocks' is restated as bounded progress. A race without repository frames would be a harness defect and makes the run inconclusive.",
+    "rule": "a class is a pair of command kinds observed in flight at the same time; evidence also counts commands by kind, requests by status, upgraded connections, hook events and race reports before/after deduplication",
+    "assumptions": ["go1.26.8 race detector; real time, real TCP on loopback"],
+}
+
 ENGINES = [
+    {"name": "live", "path": "/verif/harness (c18_test.go)", "kind_free_text": "real Server on loopback TCP with real HTTP targets and clients, built with -race, random jitter at hook points; race reports parsed from GORACE logs by tools/racelog.py", "serves_properties": ["C18"]},
     {"name": "sim+binary", "path": "/verif/harness (c12_test.go, c20_test.go, procs_test.go)", "kind_free_text": "the real kamal-proxy binary built from the working tree with the repository's own toolchain, run with scratch HOME/XDG_RUNTIME_DIR against real HTTP targets; SIGKILL at hook points (VERIF_CRASH) or injected by strace; CLI driven as a user would", "serves_properties": ["C12", "C20"]},
     {"name": "sim", "path": "/verif/harness (world_test.go)", "kind_free_text": "real internal/server code in a testing/synctest bubble (virtual time) on an in-memory network with scripted fake targets and hook-placed delays; monitors judge recorded events", "serves_properties": []},
 ]
